@@ -18,7 +18,7 @@ RULE = ("case = DCOP + algorithm + parameters + schedule + seed; non-trivial = >
         "with >=2 variables and >=1 constraint of arity>=2; distinct by sha1(case)")
 ASSUMPTIONS = c03.ASSUMPTIONS
 BUDGET = {"quick": {"workers": 8, "examples": 450, "seconds": 45},
-          "thorough": {"workers": 16, "examples": 2500, "seconds": 600}}
+          "thorough": {"workers": 16, "examples": 15000, "seconds": 600}}
 
 case_strategy = c03.case_strategy
 
